@@ -32,6 +32,7 @@ func init() {
 	ruleText["R03.11"] = "in arrayTypeLen the index of an element without key is not computed from the variable whose final value + 1 is returned (the running maximum): it follows the previous element"
 	ruleText["R03.7"] = "no assignment in package interp has the form *p = v with p of type *itype: a node's type is changed by replacing the pointer, never by overwriting the shared type object"
 	ruleText["R03.6"] = "in the AST builder, the value of an INT, FLOAT, IMAG or STRING literal is constant.MakeFromLiteral(lit.Value, lit.Kind, 0) on every path (go/constant's parser defines the exact value of a literal)"
+	ruleText["R03.16"] = "= R02.14 shared: no process-wide memo table (a constant converted once under its printed form is handed to every constant printed alike)"
 	ruleText["R03.5"] = "every function assigning scope.iota does so in an if/else that resets it to 0 when the spec is the last child of its declaration and increments it otherwise; all such sites use the same condition"
 }
 
@@ -58,6 +59,11 @@ func runC03(c *Config, r *Report) {
 	c03R11(ic, r)
 	c03R14(ic, r)
 	c03R15(ic, r)
+	if icS, err := loadInterp(c, true); err == nil {
+		noProcessWideMemo(icS, r, "R03.16")
+	} else {
+		r.Errorf("R03.16: %v", err)
+	}
 	c03R5(ic, r)
 	c03R6(ic, r)
 	c03R7(ic, r)
